@@ -82,21 +82,46 @@ def _plimbs(p, tu):
     return [limbs(p[0] / tu), limbs(p[1])]
 
 
-def _run(g, tu):
-    geom = build(g, tu)
-    b = compute_bounds(geom)
+_NAN = [9, 3, 0, 0, 0, 0, 0]
+
+
+def _try(raised, label, fn, fallback):
+    """call the library; an exception is an observation (fixed-shape fallback value + its name in `raised`)."""
+    try:
+        return fn()
+    except Exception as ex:
+        raised.append(label + ":" + type(ex).__name__)
+        return fallback
+
+
+def _feats(geom, tu):
     feats = []
     for f in compute_geometric_features(geom):
         name, unit = _feat_table().get(f.term.name, ("other:" + str(f.term.name), "n"))
         u = {"t": tu, "f": FREQ_UNIT, "n": 1.0}[unit]
         feats.append({"name": name, "v": _tk(f.value, u)})
+    return feats
+
+
+def _bounds(geom, tu):
+    b = compute_bounds(geom)
+    return [_tk(b[0], tu), _tk(b[1], FREQ_UNIT), _tk(b[2], tu), _tk(b[3], FREQ_UNIT)]
+
+
+def _run(g, tu):
+    geom = build(g, tu)
+    raised = []
     return {
-        "bounds": [_tk(b[0], tu), _tk(b[1], FREQ_UNIT), _tk(b[2], tu), _tk(b[3], FREQ_UNIT)],
-        "shape": _shape(geometry_to_shapely(geom), tu),
-        "feat": feats,
-        "anchors": [_point2(get_geometry_point(geom, position=p), tu) for p in POSITIONS],
-        "centroid": _plimbs(get_geometry_point(geom, position="centroid"), tu),
-        "surface": _plimbs(get_geometry_point(geom, position="point_on_surface"), tu),
+        "bounds": _try(raised, "compute_bounds", lambda: _bounds(geom, tu), [OFF] * 4),
+        "shape": _try(raised, "geometry_to_shapely", lambda: _shape(geometry_to_shapely(geom), tu), {"kind": "", "parts": []}),
+        "feat": _try(raised, "compute_geometric_features", lambda: _feats(geom, tu), []),
+        "anchors": [_try(raised, "get_geometry_point/" + p, lambda: _point2(get_geometry_point(geom, position=p), tu), [OFF, OFF])
+                    for p in POSITIONS],
+        "centroid": _try(raised, "get_geometry_point/centroid",
+                         lambda: _plimbs(get_geometry_point(geom, position="centroid"), tu), [_NAN, _NAN]),
+        "surface": _try(raised, "get_geometry_point/point_on_surface",
+                        lambda: _plimbs(get_geometry_point(geom, position="point_on_surface"), tu), [_NAN, _NAN]),
+        "raised": raised,
     }
 
 
